@@ -2,7 +2,9 @@
 inertia matrix, and a lemma chain that replaces proved-equal terms by their closed form before the next query."""
 
 import itertools
+import math
 import os
+from fractions import Fraction
 
 import numpy as np
 import warp as wp
@@ -360,6 +362,238 @@ class Chain:
   def prove(self, ctx, name, goal, guard=True, tactic=None, **kw):
     sess, g, gd = self.session(ctx, goal, guard, tactic)
     return ctx.prove(sess, name, g, gd, **kw)
+
+
+# ------------------------------------------------------------------------------------------------ solver-checked normal forms
+
+
+class Laurent:
+  """Laurent polynomial with rational coefficients: {monomial: Fraction}, monomial = sorted tuple of (symbol name, exponent != 0).
+  Used ONLY to propose closed forms (hints); every proposed equality is then proved by the solver before it is used."""
+
+  __slots__ = ("t",)
+
+  def __init__(self, t=None):
+    self.t = t or {}
+
+  @staticmethod
+  def const(c):
+    c = Fraction(c)
+    return Laurent({(): c} if c else {})
+
+  @staticmethod
+  def sym(name):
+    return Laurent({((name, 1),): Fraction(1)})
+
+  def __add__(self, o):
+    r = dict(self.t)
+    for m, c in o.t.items():
+      v = r.get(m, 0) + c
+      if v:
+        r[m] = v
+      else:
+        r.pop(m, None)
+    return Laurent(r)
+
+  def __neg__(self):
+    return Laurent({m: -c for m, c in self.t.items()})
+
+  def __sub__(self, o):
+    return self + (-o)
+
+  @staticmethod
+  def _mm(a, b):
+    e = dict(a)
+    for n, k in b:
+      v = e.get(n, 0) + k
+      if v:
+        e[n] = v
+      else:
+        e.pop(n, None)
+    return tuple(sorted(e.items()))
+
+  def __mul__(self, o):
+    r = {}
+    for m1, c1 in self.t.items():
+      for m2, c2 in o.t.items():
+        m = Laurent._mm(m1, m2)
+        v = r.get(m, 0) + c1 * c2
+        if v:
+          r[m] = v
+        else:
+          r.pop(m, None)
+    return Laurent(r)
+
+  def inverse(self, positive):
+    """1 / self if self is a single term whose symbols are all known to be positive"""
+    if len(self.t) != 1:
+      return None
+    ((m, c),) = self.t.items()
+    if any(n not in positive for n, _ in m):
+      return None
+    return Laurent({tuple((n, -k) for n, k in m): 1 / c})
+
+  def sqrt(self, positive):
+    if len(self.t) != 1:
+      return None
+    ((m, c),) = self.t.items()
+    if c <= 0 or any(n not in positive or k % 2 for n, k in m):
+      return None
+    rn, rd = math.isqrt(c.numerator), math.isqrt(c.denominator)
+    if rn * rn != c.numerator or rd * rd != c.denominator:
+      return None
+    return Laurent({tuple((n, k // 2) for n, k in m): Fraction(rn, rd)})
+
+
+def _frac(t):
+  return Fraction(t.numerator_as_long(), t.denominator_as_long())
+
+
+def laurent_of(term, closed, positive, memo=None):
+  """Laurent form of a z3 real term whose engine symbols (names with '!') all have closed forms in `closed`; None if the
+  term leaves the fragment (division by a non-monomial, if-then-else, ...)"""
+  memo = {} if memo is None else memo
+
+  def go(t):
+    k = t.get_id()
+    if k in memo:
+      return memo[k]
+    r = go1(t)
+    memo[k] = r
+    return r
+
+  def go1(t):
+    if z3.is_rational_value(t) or z3.is_int_value(t):
+      return Laurent.const(_frac(t) if z3.is_rational_value(t) else t.as_long())
+    kind = t.decl().kind()
+    ch = t.children()
+    if z3.is_const(t) and kind == z3.Z3_OP_UNINTERPRETED:
+      n = t.decl().name()
+      if "!" in n and not n.startswith("uninit!"):
+        return closed.get(n)
+      return Laurent.sym(n)
+    if kind == z3.Z3_OP_TO_REAL:
+      return go(ch[0])
+    xs = [go(c) for c in ch]
+    if any(x is None for x in xs):
+      return None
+    if kind == z3.Z3_OP_ADD:
+      r = xs[0]
+      for x in xs[1:]:
+        r = r + x
+      return r
+    if kind == z3.Z3_OP_MUL:
+      r = xs[0]
+      for x in xs[1:]:
+        r = r * x
+      return r
+    if kind == z3.Z3_OP_SUB:
+      r = xs[0]
+      for x in xs[1:]:
+        r = r - x
+      return r
+    if kind == z3.Z3_OP_UMINUS:
+      return -xs[0]
+    if kind == z3.Z3_OP_DIV:
+      inv = xs[1].inverse(positive)
+      return None if inv is None else xs[0] * inv
+    return None
+
+  return go(term)
+
+
+class Renderer:
+  def __init__(self):
+    self.rec = {}
+
+  def __call__(self, lp):
+    terms = []
+    for m in sorted(lp.t):
+      c = lp.t[m]
+      fs = []
+      for n, k in m:
+        v = z3.Real(n)
+        if k < 0:
+          if n not in self.rec:
+            self.rec[n] = z3.RealVal(1) / v
+          v = self.rec[n]
+        fs += [v] * abs(k)
+      coef = z3.RealVal(str(c))
+      terms.append(z3.Product([coef] + fs) if fs and c != 1 else (z3.Product(fs) if fs else coef))
+    if not terms:
+      return z3.RealVal(0)
+    return z3.Sum(terms) if len(terms) > 1 else terms[0]
+
+
+class Closer(Chain):
+  """Chain that closes every named intermediate of a run in execution order: the Laurent arithmetic proposes a closed form
+  over the parameters, the SOLVER proves  definition[closed inputs] == proposal  (one small query per store; for a sqrt
+  symbol: s >= 0, s^2 = v, positivity facts |- s == proposal), and only then the name is replaced."""
+
+  def __init__(self, axioms, defs, facts, positive):
+    super().__init__(axioms, defs, facts)
+    self.positive = set(positive)
+    self.lp = {}  # name -> Laurent
+    self.render = Renderer()
+    self.sq = {}
+    for a in self.axioms:
+      for n in consts_of(a):
+        if n.startswith("sqrt!"):
+          self.sq[n] = a
+    self.failed = []
+
+  def close_all(self, ctx, prefix, replay, desc):
+    memo = {}
+    for v, t in self.defs:
+      self._close(ctx, prefix, v, t, replay, desc, memo)
+
+  def _close_sqrt(self, ctx, prefix, n, replay, desc, memo):
+    ax = self.sq.get(n)
+    if ax is None or n in self.lp or n in self.failed:
+      return
+    # Implies(x >= 0, And(s >= 0, s*s == x))
+    try:
+      x = ax.arg(0).arg(0)
+    except Exception:
+      self.failed.append(n)
+      return
+    self._need(ctx, prefix, x, replay, desc, memo)
+    lx = laurent_of(x, self.lp, self.positive, memo)
+    h = lx.sqrt(self.positive) if lx is not None else None
+    if h is None:
+      self.failed.append(n)
+      return
+    s = z3.Real(n)
+    ht = self.render(h)
+    sess = OneShot(self.facts + [self.sb(ax)], ctx.timeout_ms)
+    res = ctx.prove(sess, f"{prefix}/closed:{n}", s == ht, replay=replay(f"{prefix}.{n}"), desc=desc(n))
+    if res.status == "unsat":
+      self.lp[n] = h
+      self.add(s, ht)
+    else:
+      self.failed.append(n)
+
+  def _need(self, ctx, prefix, term, replay, desc, memo):
+    for n in consts_of(term):
+      if n.startswith("sqrt!") and n not in self.lp:
+        self._close_sqrt(ctx, prefix, n, replay, desc, memo)
+
+  def _close(self, ctx, prefix, v, t, replay, desc, memo):
+    n = v.decl().name()
+    self._need(ctx, prefix, t, replay, desc, memo)
+    h = laurent_of(t, self.lp, self.positive, memo)
+    if h is None:
+      self.failed.append(n)
+      return
+    ht = self.render(h)
+    ts = self.sb(t)
+    sess = OneShot(self.background(ts), ctx.timeout_ms)
+    res = ctx.prove(sess, f"{prefix}/closed:{n}", ts == ht, replay=replay(f"{prefix}.{n}"), desc=desc(n))
+    if res.status == "unsat":
+      self.lp[n] = h
+      self.add(v, ht)
+    else:
+      self.failed.append(n)
 
 
 def rnd_spd_factor(rng, n, lo=0.6, hi=1.4):
